@@ -1,0 +1,13 @@
+//go:build verif
+
+package assembler
+
+// VerifParseLine exposes the unexported label line parsers to the verification harness.
+// kind is "acme" or "64tass".
+func VerifParseLine(kind string, line string) (uint16, string, error) {
+	if kind == "64tass" {
+		return parseOneLineTass(line)
+	}
+
+	return parseOneLineAcme(line)
+}
